@@ -394,6 +394,75 @@ def leg_js_history(ns, res, spec):
     res.sample({'leg': 'js-history', 'cases': len(reqs), 'example': reqs[0]['query']})
 
 
+SQLITE_HISTORY_QUERIES = [
+    ('select a1, a2', 'utf-8'), ('select a.name, len(a.name), a.name.upper()', 'utf-8'), ('select a1, b.word join b on a1 == b.id', 'utf-8'), ('select a2 where a2 > "d"  order by a2', 'utf-8'),
+    ('select a1 +', 'latin-1'), ('select int(a2)', 'latin-1'), ('select a1 join nosuch on a1 == b1', 'latin-1'), ('select a1 where a2 = 1', 'latin-1'), ('select a1, a2', 'latin-1'), ('select a1', 'latin-1'),
+    ('select a1 +', 'utf-8'), ('select int(a2)', 'utf-8'), ('select a1 join nosuch on a1 == b1', 'utf-8'), ('update a2 = a2 + "!" where a1 != "2"', 'utf-8'), ('select distinct count a2', 'latin-1'),
+]
+
+
+def leg_sqlite_history(ns, res, spec):
+    """The sqlite front-end with ONE connection shared by consecutive queries (output encodings differ, some queries fail): each result must equal
+    the result of the same query on a fresh connection, and the caller's connection must keep its settings."""
+    import sqlite3
+    import tempfile
+    import shutil
+    d = tempfile.mkdtemp(prefix='rv-C16-')
+    try:
+        db = os.path.join(d, 'h.sqlite')
+        c0 = sqlite3.connect(db)
+        c0.execute('CREATE TABLE t (id TEXT, name TEXT)')
+        c0.executemany('INSERT INTO t VALUES (?, ?)', [('1', 'caf\u00e9'), ('2', '\u65e5\u672c'), ('3', 'plain'), ('4', '\u00fcber \u20ac')])
+        c0.execute('CREATE TABLE b (id TEXT, word TEXT)')
+        c0.executemany('INSERT INTO b VALUES (?, ?)', [('1', 'na\u00efve'), ('2', '\u4e16\u754c'), ('4', 'x')])
+        c0.commit()
+        c0.close()
+
+        def run(conn, q, enc, tag):
+            outp = os.path.join(d, 'o_%s.csv' % tag)
+            if os.path.exists(outp):
+                os.unlink(outp)
+            warns = []
+            err = None
+            try:
+                ns.sqlite.query_sqlite_to_csv(q, conn, 't', outp, ',', 'quoted_rfc', enc, warns)
+            except Exception as e:
+                err = util.error_class(e) if 'Rbql' in type(e).__name__ or isinstance(e, SyntaxError) else 'other:' + type(e).__name__
+            data = open(outp, 'rb').read() if os.path.exists(outp) else None
+            return {'error': err, 'bytes': data.hex() if data is not None and err is None else None, 'warnings': warns}
+
+        def settings(conn):
+            return (conn.text_factory, conn.row_factory, conn.isolation_level, conn.in_transaction)
+        solo = []
+        for i, (q, enc) in enumerate(SQLITE_HISTORY_QUERIES):
+            conn = sqlite3.connect(db)
+            solo.append(run(conn, q, enc, 'solo'))
+            conn.close()
+        res.count('sqlite_history_solo_results', len(solo))
+        res.count('sqlite_history_solo_failing', sum(1 for s in solo if s['error']))
+        n = len(SQLITE_HISTORY_QUERIES)
+        for i in range(n):
+            for j in range(n):
+                conn = sqlite3.connect(db)
+                s0 = settings(conn)
+                run(conn, SQLITE_HISTORY_QUERIES[i][0], SQLITE_HISTORY_QUERIES[i][1], 'first')
+                s1 = settings(conn)
+                got = run(conn, SQLITE_HISTORY_QUERIES[j][0], SQLITE_HISTORY_QUERIES[j][1], 'second')
+                conn.close()
+                res.evaluations += 1
+                res.count('sqlite_history_runs')
+                res.nontrivial('sqlite-hist', i, j)
+                case = {'leg': 'sqlite-history', 'first': SQLITE_HISTORY_QUERIES[i], 'second': SQLITE_HISTORY_QUERIES[j]}
+                if s1 != s0:
+                    res.violation('py:sqlite-connection-settings-changed', '[py/sqlite] %r (%s) left the caller\'s connection with other settings: %r -> %r' % (SQLITE_HISTORY_QUERIES[i][0], SQLITE_HISTORY_QUERIES[i][1], s0, s1), case)
+                if got != solo[j]:
+                    res.violation('py:sqlite-result-depends-on-history', '[py/sqlite] %r (%s) after %r (%s) on the same connection -> %r ; on a fresh connection -> %r' % (
+                        SQLITE_HISTORY_QUERIES[j][0], SQLITE_HISTORY_QUERIES[j][1], SQLITE_HISTORY_QUERIES[i][0], SQLITE_HISTORY_QUERIES[i][1], got, solo[j]), case)
+        res.sample({'leg': 'sqlite-history', 'queries': n, 'pairs': n * n})
+    finally:
+        shutil.rmtree(d, ignore_errors=True)
+
+
 def leg_preempt(ns, res, spec):
     """8 threads x N queries with a tiny switch interval and seeded sleep(0) injected between statements of the engine and the generated loop."""
     R = spec['R']
@@ -464,6 +533,7 @@ def plan(tier, seed):
         specs.append({'kind': 'preempt', 'R': 3, 'solo': solo3, 'n': 60})
         specs += [{'kind': 'generated', 'i': i, 'n': 60, 'pairs': 40, 'schedules': 3} for i in range(4)]
         specs += [{'kind': 'js-history', 'i': i, 'n': 40} for i in range(4)]
+        specs.append({'kind': 'sqlite-history'})
     else:
         solo4 = fresh_baselines(4)
         kinds = ['get_record', 'write', 'finish']
@@ -481,20 +551,21 @@ def plan(tier, seed):
             specs.append({'kind': 'preempt', 'R': 4, 'solo': solo4, 'n': 200})
         specs += [{'kind': 'generated', 'i': i, 'n': 400, 'pairs': 400, 'schedules': 6} for i in range(12)]
         specs += [{'kind': 'js-history', 'i': i, 'n': 200} for i in range(8)]
+        specs.append({'kind': 'sqlite-history'})
     return specs
 
 
 def run_shard(spec, res):
     ns = env.import_rbql()
-    {'history': leg_history, 'interleave': leg_interleave, 'preempt': leg_preempt, 'generated': leg_generated, 'js-history': leg_js_history}[spec['kind']](ns, res, spec)
+    {'history': leg_history, 'interleave': leg_interleave, 'preempt': leg_preempt, 'generated': leg_generated, 'js-history': leg_js_history, 'sqlite-history': leg_sqlite_history}[spec['kind']](ns, res, spec)
 
 
 def summarize(tier, seed, m):
     return {
-        'rule': '%d scenarios (plain select, like, UNNEST, ORDER BY, DISTINCT COUNT, GROUP BY with all nine aggregates, JOIN, UPDATE with NU, TOP, syntax error, parsing error, runtime error at record 2, aggregate misuse, double UNNEST, and two pairs of identical query texts over differently ordered headers); solo results from one fresh interpreter per scenario; history: every sequence of length <= 2 plus random sequences of length 3..6 in one process; interleaving: every unordered pair of scenarios (incl. a scenario with itself) in two real threads under the cooperative scheduler, ALL interleavings of the get_record / write / finish steps enumerated by stateless DFS (%s); preemption stress with sys.monitoring LINE yield injection; generated queries (C01-C05 generators, failing variants, and header twins: the same query text over the same data with the columns in another order) whose solo results come from forked children of a query-free interpreter, then run in three shuffled orders through one interpreter (probe sink and CSV writer sink) and pairwise in two threads under seeded random schedules; the JS port sequentially: generated language-neutral queries alone in a fresh node process each vs three shuffled histories (with failing queries interspersed) in one node process. distinct_nontrivial = distinct step traces realised + distinct history sequences.' % (
+        'rule': '%d scenarios (plain select, like, UNNEST, ORDER BY, DISTINCT COUNT, GROUP BY with all nine aggregates, JOIN, UPDATE with NU, TOP, syntax error, parsing error, runtime error at record 2, aggregate misuse, double UNNEST, and two pairs of identical query texts over differently ordered headers); solo results from one fresh interpreter per scenario; history: every sequence of length <= 2 plus random sequences of length 3..6 in one process; interleaving: every unordered pair of scenarios (incl. a scenario with itself) in two real threads under the cooperative scheduler, ALL interleavings of the get_record / write / finish steps enumerated by stateless DFS (%s); preemption stress with sys.monitoring LINE yield injection; generated queries (C01-C05 generators, failing variants, and header twins: the same query text over the same data with the columns in another order) whose solo results come from forked children of a query-free interpreter, then run in three shuffled orders through one interpreter (probe sink and CSV writer sink) and pairwise in two threads under seeded random schedules; the JS port sequentially: generated language-neutral queries alone in a fresh node process each vs three shuffled histories (with failing queries interspersed) in one node process; the sqlite front-end with one connection shared by every ordered pair of 15 queries (utf-8 / latin-1 output, 7 of them failing) vs a fresh connection each, and the caller\'s connection settings before / after. distinct_nontrivial = distinct step traces realised + distinct history sequences.' % (
             len(SCENARIOS), '2-record tables' if tier == 'quick' else '2- and 3-record tables for all pairs (3-record pairs capped at 20000 schedules), 4-record tables for 6 selected pairs'),
         'exhaustive': m['counters'].get('pairs_truncated', 0) == 0,
-        'required': ['js_solo_results_from_fresh_node_processes', 'js_history_runs', 'generated_solo_results', 'generated_header_twins', 'generated_history_runs', 'generated_interleaved_schedules', 'generated_interleaved_handoffs', 'schedules', 'pairs_enumerated_completely', 'handoffs', 'history_runs', 'preemption_runs', 'line_events_in_main_loop', 'injected_yields'],
+        'required': ['sqlite_history_runs', 'sqlite_history_solo_failing', 'js_solo_results_from_fresh_node_processes', 'js_history_runs', 'generated_solo_results', 'generated_header_twins', 'generated_history_runs', 'generated_interleaved_schedules', 'generated_interleaved_handoffs', 'schedules', 'pairs_enumerated_completely', 'handoffs', 'history_runs', 'preemption_runs', 'line_events_in_main_loop', 'injected_yields'],
         'assumptions': ['exhaustive at the granularity of iterator / writer calls (what the statement names); statement-level preemption is sampled; bytecode-level is not explored', 'a change of module-level state alone is not a refutation (advisory notes only)'],
     }
 
